@@ -211,6 +211,7 @@ func Run(c *Case) *vkit.Outcome {
 		mu.Unlock()
 	}
 	var hookCalls, persistErrs, obsCalls, noiseReports atomic.Int32
+	var decoy *eventbus.MemoryStore
 	noiseWanted := 0
 	var opts []eventbus.Option
 	storeLast := true
@@ -223,6 +224,13 @@ func Run(c *Case) *vkit.Outcome {
 		case "store":
 			opts = append(opts, eventbus.WithStore(store))
 			seenStore = true
+		case "decoystore":
+			// an earlier WithStore naming another store (defaults overridden
+			// later in the list): the last WithStore is the bus's store
+			if !seenStore {
+				decoy = eventbus.NewMemoryStore()
+				opts = append(opts, eventbus.WithStore(decoy))
+			}
 		case "before":
 			opts = append(opts, eventbus.WithBeforePublish(func(reflect.Type, any) { hookCalls.Add(1) }))
 		case "beforectx":
@@ -403,6 +411,13 @@ func Run(c *Case) *vkit.Outcome {
 	}
 	if noiseWanted > 0 {
 		o.Class("unencodable_events_published_concurrently")
+	}
+	if decoy != nil {
+		if evs, _, _ := decoy.Read(context.Background(), eventbus.OffsetOldest, 0); len(evs) != 0 {
+			o.Failf("", "options %v: %d records went to the store of an earlier WithStore option; the last WithStore names the bus's store", c.Options, len(evs))
+			return o
+		}
+		o.Class("an_earlier_WithStore_names_another_store")
 	}
 
 	for _, f := range fails {
